@@ -248,7 +248,9 @@ func runC12Site(t *tr.Trace, r *tr.Rand, root string) {
 		{"frag-huge", bytes.Repeat([]byte("a=candidate:1 1 udp 1 192.0.2.1 5000 typ host\r\n"), 40000)}}
 	bearers := map[string]string{"none": "", "present": "Bearer tpres", "present-sub": "Bearer tadm1sub", "admin-only": "Bearer tadm1", "unknown": "Bearer nosuchtoken",
 		"expired": "Bearer texp", "other-group": "Bearer tadm2", "basic": basicHeader("alice", "S3CR3T-alice-pw"), "garbage": "Bearer \x00\xff"}
-	site := func(m, p string, hdr map[string]string, b rawBody) result { return w.raw(siteHandler, false, m, p, hdr, b) }
+	site := func(m, p string, hdr map[string]string, b rawBody) result {
+		return w.raw(siteHandler, false, m, p, hdr, b)
+	}
 	hd := func(auth, ct string) map[string]string {
 		h := map[string]string{}
 		if auth != "" {
